@@ -153,3 +153,48 @@ Definition verdict_C05 (c : hcase) : N :=
     end
   end.
 Definition verdicts_C05 (cs : list hcase) : list N := map verdict_C05 cs.
+
+(* ---------- C04: the implementation against the reference semantics (Ref.v) ---------- *)
+From Crux Require Import Rt.Ref.
+Fixpoint remove_first {A} (eqb : A -> A -> bool) (x : A) (l : list A) : option (list A) :=
+  match l with
+  | [] => None
+  | y :: r => if eqb x y then Some r else match remove_first eqb x r with Some r' => Some (y :: r') | None => None end
+  end.
+Fixpoint ms_eqb {A} (eqb : A -> A -> bool) (a b : list A) : bool :=
+  match a with
+  | [] => match b with [] => true | _ => false end
+  | x :: a' => match remove_first eqb x b with Some b' => ms_eqb eqb a' b' | None => false end
+  end.
+Definition reff_oeff_eqb (r : reff) (o : oeff) : bool :=
+  Nat.eqb (re_tag r) (oe_tag o) && Nat.eqb (re_val r) (oe_val o) && list_eqb Nat.eqb (re_maps r) (oe_maps o).
+Definition oeff_of_reff (r : reff) : oeff := mkOE (re_tag r) (re_val r) (re_maps r) KNever.
+(* per step: same effects and same events up to order within the step, same done, same result code *)
+Definition robs_obs_eqb (r : robs) (o : obs) : bool :=
+  match r, o with
+  | ROEffects l, OEffects l' => ms_eqb oeff_eqb (map oeff_of_reff l) l'
+  | ROEvents l, OEvents l' => ms_eqb event_eqb l l'
+  | RODone b, ODone b' _ => Bool.eqb b b'
+  | ROResolve c, OResolve c' => Nat.eqb c c'
+  | RONone, ONone => true
+  | _, _ => false
+  end.
+Fixpoint list_eqb2 {A B} (eqb : A -> B -> bool) (a : list A) (b : list B) : bool :=
+  match a, b with
+  | [], [] => true
+  | x :: a', y :: b' => eqb x y && list_eqb2 eqb a' b'
+  | _, _ => false
+  end.
+Definition in_fragment (c : rtcase) : bool :=
+  match c with (core, _, p, _, acts, _) => negb core && cmd_abort_free p && sched_abort_free acts end.
+Definition C04_ok (c : rtcase) : bool :=
+  match c with (_, _, p, _, acts, t) =>
+    no_panic t &&
+    (negb (in_fragment c) ||
+     match ref_direct RF p acts with
+     | Some r => list_eqb2 robs_obs_eqb r t
+     | None => false
+     end)
+  end.
+Definition verdicts_C04 (cs : list rtcase) : list N := map (verdict_with C04_ok) cs.
+Definition fragment_flags (cs : list rtcase) : list N := map (fun c => if in_fragment c then 1%N else 0%N) cs.
